@@ -249,7 +249,9 @@ def record_kexdh(rng):
     from cryptoparser.ssh.record import SshRecordKexDH
     r = rng.random()
     if r < 0.3:
-        return SshRecordKexDH(sized_message(rng, rng.randrange(5, 45)))
+        # every residue mod 8 around multiples of 8 (small, one block, 256, 4096)
+        base = rng.choice([8, 16, 24, 32, 40, 256, 4096])
+        return SshRecordKexDH(sized_message(rng, max(5, base + rng.randrange(-8, 9))))
     return SshRecordKexDH(rng.choice([kexinit, disconnect, unimplemented, dh_init, dh_reply, new_keys])(rng))
 
 
@@ -290,8 +292,26 @@ def protocol_version(rng):
     return SshProtocolVersion(rng.choice(list(SshVersion)), rng.choice([0, 0, 99, 5, 1, 10 ** 9]))
 
 
+def sized_banner(rng, total, with_comment):
+    """an identification string that composes to exactly `total` bytes (CR LF included)"""
+    from cryptoparser.ssh.subprotocol import SshProtocolMessage
+    from cryptoparser.ssh.version import SshProtocolVersion, SshSoftwareVersionUnparsed, SshVersion
+    fixed = len('SSH-2.0-') + 2
+    room = total - fixed
+    if with_comment:
+        comment = ''.join(rng.choice(NAME_CHARS) for _ in range(rng.randrange(1, 20)))
+        software = 'x' * (room - len(comment) - 1)
+    else:
+        comment = None
+        software = 'x' * room
+    return SshProtocolMessage(SshProtocolVersion(SshVersion.SSH2, 0), SshSoftwareVersionUnparsed(software), comment)
+
+
 def banner(rng):
     from cryptoparser.ssh.subprotocol import SshProtocolMessage
+    if rng.random() < 0.2:
+        # 253, 254, 255 (the RFC 4253 maximum) and 256 bytes (composable, refused by the parser)
+        return sized_banner(rng, rng.choice([253, 254, 255, 256]), rng.random() < 0.5)
     r = rng.random()
     if r < 0.5:
         comment = None
@@ -354,8 +374,17 @@ def certificate(kind):
         from cryptoparser.ssh import key as sk
         cls = getattr(sk, 'SshHostCertificateV01' + kind)
         plain = {'RSA': key_rsa, 'DSS': key_dss, 'ECDSA': key_ecdsa, 'EDDSA': key_eddsa}[kind](rng)
-        stamp = lambda: datetime.datetime.fromtimestamp(  # noqa: E731
-            rng.choice([0, 1, 1600000000, 2 ** 31 - 1, 2 ** 31, 2 ** 32 - 1, rng.getrandbits(32)]), dateutil.tz.UTC)
+        def stamp():
+            # 0, 2^32-1 and ordinary instants; in UTC or as the same instant in a zone with a non-UTC offset
+            t = datetime.datetime.fromtimestamp(
+                rng.choice([0, 0, 1, 1600000000, 2 ** 31 - 1, 2 ** 31, 2 ** 32 - 1, 2 ** 32 - 1, rng.getrandbits(32)]),
+                dateutil.tz.UTC)
+            if rng.random() < 0.4:
+                offset = rng.choice([datetime.timedelta(hours=1), datetime.timedelta(hours=-5),
+                                     datetime.timedelta(hours=5, minutes=30)])
+                t = t.astimezone(datetime.timezone(offset))
+            return t
+
         return cls(
             host_key_algorithm=rng.choice(list(cls.get_host_key_algorithms())),
             public_key=plain.public_key,
@@ -366,7 +395,7 @@ def certificate(kind):
             valid_principals=[sk.SshString(rng.choice(['root', 'host.example.com', '', 'a,b']))
                               for _ in range(rng.choice([0, 0, 1, 2, 3]))],
             valid_after=stamp(),
-            valid_before=None if rng.random() < 0.3 else stamp(),
+            valid_before=None if rng.random() < 0.3 else stamp(),     # None is 2^64-1, "forever"
             critical_options=[cert_option(rng, True) for _ in range(rng.choice([0, 0, 1, 2]))],
             extensions=[cert_option(rng, False) for _ in range(rng.choice([0, 1, 3, 6]))],
             reserved=rbytes(rng, rng.choice([0, 0, 0, 3])),
